@@ -8,6 +8,7 @@ CONSTANTS
   CompleteBeforeJoin = FALSE
   TermIsForced = FALSE
   SecondStopHangs = FALSE
+  AwaitsLastWorkerOnly = FALSE
 SPECIFICATION FairSpec
 PROPERTIES C06_AlwaysCompletes
 CHECK_DEADLOCK FALSE
